@@ -35,8 +35,8 @@ fn expect_completed(out: &DecapOut, pdu: &[u8], pt: u16, l: Lbl, n: usize) -> Op
 
 pub fn run(tier: Tier) -> i32 {
     let rep = Report::new("C16", tier);
-    rep.set_rule("receiver states: closure of the 1-slot receiver system and the 2-slot system to depth 5 (thorough: closure) over provision / new_pdu / reset / decap(43-packet alphabet incl. every rejection reason, malformed and truncated buffers, unfinished trains); in EVERY state the recovery probe runs on restored copies: reset_last_label, provision one buffer (Ok or StorageOverflow accepted), then (i) a valid complete packet with a 6-byte resp. 3-byte label, (ii) a valid 3-fragment PDU on each fragment id in {0, 1, slots (aliasing), 255} with both label kinds; distinct = probe outcome classes");
-    rep.assume("histories are drawn from the 43-packet alphabet (structured, not random bytes); C05 covers arbitrary bytes for totality");
+    rep.set_rule("receiver states: closure of the 1-slot receiver system and the 2-slot system to depth 5 (thorough: closure) over provision / new_pdu / reset / decap(46-packet alphabet incl. every rejection reason, malformed and truncated buffers, unfinished trains); in EVERY state the recovery probe runs on restored copies: reset_last_label, provision one buffer (Ok or StorageOverflow accepted), then (i) a valid complete packet with a 6-byte resp. 3-byte label, (ii) a valid 3-fragment PDU on each fragment id in {0, 1, slots (aliasing), 255} with both label kinds, plus three 'twins' of the trains the alphabet leaves unfinished (same fragment id, label, protocol type and total length, other PDU bytes); distinct = probe outcome classes");
+    rep.assume("histories are drawn from the 46-packet alphabet (structured, not random bytes); C05 covers arbitrary bytes for totality");
     let mgr = mgr_std();
     for slots in [1usize, 2] {
         let buffers: Vec<usize> = (0..slots + 3).map(|i| 4 + i).collect();
@@ -101,18 +101,22 @@ pub fn run(tier: Tier) -> i32 {
                     }
                 }
                 // (ii) fragmented PDUs
-                for f in [0u8, 1, slots as u8, 255] {
-                    for l in [L6B, L3B] {
+                let mut train_probes: Vec<(u8, Lbl, u16)> = [0u8, 1, slots as u8, 255].into_iter().flat_map(|f| [(f, L6B, 0x0800u16), (f, L3B, 0x0800)]).collect();
+                // twins of the unfinished trains of the history: same fragment id, label, protocol type and total
+                // length as a train the alphabet leaves open, but another PDU
+                train_probes.extend([(0u8, L6A, 0x0800u16), (1, L3A, 0x86DD), (slots as u8, Lbl::Bcast, 0x0800)]);
+                for (f, l, ppt) in train_probes {
+                    {
                         let Some(mut d) = prep(&mut acc) else { continue };
-                        let (p1, p2, p3, _) = train(l, f, &PDU_Z, 0x0800);
+                        let (p1, p2, p3, _) = train(l, f, &PDU_Z, ppt);
                         let o1 = do_decap(&mut d, &p1);
                         let o2 = do_decap(&mut d, &p2);
                         let o3 = do_decap(&mut d, &p3);
                         acc.transitions += 3;
                         acc.calls += 3;
                         acc.compared += 1;
-                        let ok12 = matches!(&o1, DecapOut::Fragmented { meta, consumed } if meta.label == l && meta.pt == 0x0800 && *consumed == p1.len()) && matches!(&o2, DecapOut::Fragmented { meta, consumed } if meta.label == l && meta.pt == 0x0800 && *consumed == p2.len());
-                        let why = if !ok12 { Some(format!("fragments not accepted: {} / {}", o1.brief(), o2.brief())) } else { expect_completed(&o3, &PDU_Z, 0x0800, l, p3.len()) };
+                        let ok12 = matches!(&o1, DecapOut::Fragmented { meta, consumed } if meta.label == l && meta.pt == ppt && *consumed == p1.len()) && matches!(&o2, DecapOut::Fragmented { meta, consumed } if meta.label == l && meta.pt == ppt && *consumed == p2.len());
+                        let why = if !ok12 { Some(format!("fragments not accepted: {} / {}", o1.brief(), o2.brief())) } else { expect_completed(&o3, &PDU_Z, ppt, l, p3.len()) };
                         acc.outcome(&format!("train-probe:{}/{}/{}", o1.class(), o2.class(), o3.class()));
                         if let Some(why) = why {
                             let cls = format!("{}/{}/{}", o1.class(), o2.class(), o3.class());
@@ -122,7 +126,7 @@ pub fn run(tier: Tier) -> i32 {
                     }
                 }
                 if rep.sample_wanted(i as u64 * 31 + slots as u64) {
-                    rep.sample(i as u64, || json!({"model": format!("receiver-{}-slots", slots), "slots": slots, "history": hist(), "probes": "2 complete + 8 trains, all delivered"}));
+                    rep.sample(i as u64, || json!({"model": format!("receiver-{}-slots", slots), "slots": slots, "history": hist(), "probes": "2 complete + 11 trains, all delivered"}));
                 }
             }
             rep.merge(acc);
